@@ -31,7 +31,7 @@ KW_NAME = {
 PALETTE_SOLVERS = ('cg1', 'cg40', 'cg41', 'cg500')
 _MAX_STEPS = {'cg1': 1, 'cg40': 40, 'cg41': 41, 'cg500': 500}
 OPTION_KINDS = ('E', 'P', 'Y', 'PY')
-OPERATORS = ('A', 'B')
+OPERATORS = ('A', 'B', 'AB', 'A2')
 
 _lock = threading.Lock()
 _cache: dict[str, Any] = {}
@@ -103,11 +103,35 @@ def operator(name: str):
             import jax.numpy as jnp
             from furax._base.dense import DenseBlockDiagonalOperator
 
-            mat = _matrices()[name]
-            _cache[key] = DenseBlockDiagonalOperator(
-                jnp.asarray(mat, jnp.float32), structure(), 'ij,j->i'
-            )
+            if name in ('A', 'B'):
+                mat = _matrices()[name]
+                _cache[key] = DenseBlockDiagonalOperator(
+                    jnp.asarray(mat, jnp.float32), structure(), 'ij,j->i'
+                )
+            elif name == 'AB':
+                # a sum (AdditionOperator): what `(A + B).I` holds after reduce()
+                need = ('A', 'B')
+            elif name == 'A2':
+                # a scaled operator (composition with a homothety): what `(2 * A).I` holds after reduce()
+                need = ('A',)
+            else:
+                raise ValueError(name)
+        if key in _cache:
+            return _cache[key]
+    parts = [operator(n) for n in need]
+    built = (parts[0] + parts[1]).reduce() if name == 'AB' else (2.0 * parts[0]).reduce()
+    with _lock:
+        _cache.setdefault(key, built)
         return _cache[key]
+
+
+def composite_source(name: str):
+    """The un-reduced expression whose inverse a CREATE takes for the composite operators."""
+    if name == 'AB':
+        return operator('A') + operator('B')
+    if name == 'A2':
+        return 2.0 * operator('A')
+    return operator(name)
 
 
 def diag_operator():
